@@ -560,6 +560,8 @@ class sptensor:
 
         # Easy case - returns a scalar
         if self.ndims == 2:
+            if self.nnz == 0:
+                return 0.0
             tfidx = self.subs[:, 0] == self.subs[:, 1]  # find diagonal entries
             return sum(self.vals[tfidx].transpose()[0])
 
@@ -570,6 +572,8 @@ class sptensor:
 
         # Size for return
         newsize = tuple(np.array(self.shape)[remdims])
+        if self.nnz == 0:
+            return ttb.sptensor(shape=newsize)
 
         # Find index of values on diagonal
         indx = np.where(self.subs[:, i_0] == self.subs[:, i_1])[0]
